@@ -13,7 +13,7 @@ from .core import call
 
 def integral(x):
     x = np.asarray(x)
-    return bool(x.size and x.dtype.kind == "f" and np.all(np.isfinite(x)) and np.all(x == np.round(x)) and np.abs(x).max() < 2 ** 31)
+    return bool(x.size and x.dtype.kind == "f" and np.all(np.isfinite(x)) and np.all(x == np.round(x)) and np.abs(x).max() < 2 ** 53)
 
 
 def variants(x, lists=True, float32=False, objects=False, layouts=False):
@@ -48,7 +48,10 @@ def variants(x, lists=True, float32=False, objects=False, layouts=False):
     if integral(x):
         xi = np.round(x).astype(np.int64)
         out.append(("int64", xi))
-        out.append(("int32", xi.astype(np.int32)))
+        if np.abs(xi).max() < 2 ** 31:
+            out.append(("int32", xi.astype(np.int32)))
+        if np.abs(xi).max() < 2 ** 15:          # raw counts of a 16-bit converter
+            out.append(("int16", xi.astype(np.int16)))
         if lists:
             out.append(("int-list", xi.tolist()))
     # float32 is off by default: a computation carried out in single precision legitimately differs by ~1e-7 x conditioning
